@@ -98,7 +98,11 @@ class Lang:
                 ty = (lambda o: lambda x: sig(o, [x]))(o)
             else:
                 ty = (lambda o: lambda x, y: sig(o, [x, y]))(o)
-            self.py[o["name"]] = Operator(type=ty, name=o["name"])
+            body = None
+            if o.get("chain"):
+                # composite: lambda x: a (b x) for chain [b, a]
+                body = (lambda names: lambda x: self._chain(names, x))(o["chain"])
+            self.py[o["name"]] = Operator(type=ty, name=o["name"], body=body)
             scope[o["name"]] = self.py[o["name"]]
         canon = None
         if self.listed is not None:
@@ -112,6 +116,12 @@ class Lang:
 
     def inst(self, t):
         return self.tops[t[0]](*(self.inst(a) for a in t[1]))
+
+    def _chain(self, names, x):
+        e = x
+        for n in names:
+            e = self.py[n].instance()(e)
+        return e
 
     def from_impl(self, t):
         """transforge type -> (op, args); None when a variable is left in it"""
@@ -155,6 +165,8 @@ class Lang:
                 "operators": {o["name"]: " ** ".join(
                     [("(" + st(p) + ")" if p[0] == "T" and p[1] == 3 else st(p)) for p in o["params"]]
                     + [st(o["out"])]) + ("".join(f" [{'xy'[k]} <= {n[b]}]" for k, b in o.get("cons", [])))
+                    + (" = \\x. " + " (".join(reversed(o["chain"])) + " x" + ")" * (len(o["chain"]) - 1)
+                       if o.get("chain") else "")
                     for o in self.ops}}
 
 
@@ -269,6 +281,19 @@ def gen_lang(rng: random.Random) -> Lang:
             ops.append({"name": name, "nvars": 0,
                         "params": [T_(3, g["params"][0], g["out"]), g["params"][0]],
                         "out": g["out"] if rng.random() < 0.6 else sch(oty())})
+    # a composite operator (a chain of two one-parameter operators) and something to pass it to
+    ones = [o for o in ops if o["nvars"] == 0 and len(o["params"]) == 1 and not o.get("chain")
+            and o["params"][0][1] != 3]
+    if ones and rng.random() < 0.5:
+        pairs = [(b, a) for b in ones for a in ones if sub(h, tup(b["out"]), tup(a["params"][0]))]
+        if pairs:
+            b, a = rng.choice(pairs)
+            cname = f"f{len(ops)}"
+            ops.append({"name": cname, "nvars": 0, "params": [b["params"][0]], "out": a["out"],
+                        "chain": [b["name"], a["name"]]})
+            ops.append({"name": f"f{len(ops)}", "nvars": 0,
+                        "params": [T_(3, b["params"][0], a["out"]), b["params"][0]],
+                        "out": a["out"] if rng.random() < 0.5 else sch(oty())})
     return Lang(h, listed, top, bot, ops)
 
 
@@ -349,8 +374,8 @@ def try_type(L: Lang, r):
     import transforge.type as T
     import transforge.expr as E
     try:
-        e = build(L, rekey(r, [0]), {})
-    except (T.TypingError, E.ApplicationError):
+        e = build(L, rekey(r, [0]), {}).primitive()
+    except (T.TypingError, E.ApplicationError, AssertionError, RecursionError):
         return None
     return ("ok", L.from_impl(e.type))
 
@@ -551,7 +576,7 @@ class Case:
             d["how_to_rebuild"] = ("base types B<i> with the listed parents, compound operators K<i> with the "
                 "listed variances, Language(scope, namespace, canon=listed (+Top/Bottom) or None); build the "
                 "expression by calling the operators on Source(type) objects (s<k> without a type = Source()), "
-                "same s<k> = same object; g = TransformationGraph(lang, **switches, **other_switches, "
+                "same s<k> = same object, then .primitive(); g = TransformationGraph(lang, **switches, **other_switches, "
                 "with_supertype_classes=False); g.add_expr(expr, root)")
         else:
             d["workflow"] = self.spec
@@ -612,8 +637,8 @@ def try_type_keyed(L, r):
     import transforge.type as T
     import transforge.expr as E
     try:
-        build(L, r, {})
-    except (T.TypingError, E.ApplicationError):
+        build(L, r, {}).primitive()
+    except (T.TypingError, E.ApplicationError, AssertionError, RecursionError):
         return None
     return True
 
@@ -790,15 +815,17 @@ def run_impl(case: Case):
     case.keep = keep
     if case.kind == "expr":
         try:
-            e = build(L, case.spec, {})
-        except (T.TypingError, E.ApplicationError) as ex:
-            case.skip = "does_not_build"
+            e = build(L, case.spec, {}).primitive()
+        except (T.TypingError, E.ApplicationError, AssertionError, RecursionError) as ex:
+            case.skip = "does_not_build"      # expansion of composites is C15's matter
             return
         root = BNode()
         try:
             g.add_expr(e, root)
         except NonCanonicalTypeError:
             case.error = "NonCanonicalTypeError"
+        except Exception as ex:          # not a declared outcome of add_expr
+            case.error = f"{type(ex).__name__}: {str(ex)[:160]}"
         tops = [e]
     else:
         from transforge.workflow import WorkflowDict
@@ -811,6 +838,10 @@ def run_impl(case: Case):
             ret = g.add_workflow(w)
         except NonCanonicalTypeError:
             case.error = "NonCanonicalTypeError"
+            ret = None
+        except Exception as ex:
+            case.error = f"{type(ex).__name__}: {str(ex)[:160]}"
+            case.crashed = True
             ret = None
         if ret is None:
             case.skip = "workflow_raises"     # which expressions exist is then unknown
@@ -857,8 +888,6 @@ def run_impl(case: Case):
         case.skip = "too_large"
     elif any(l["k"] in ("src", "op") and l["t"] is None for w in case.ws for l in leaves(w)):
         case.skip = "type_with_variable"
-    elif any(l["k"] in ("var",) for w in case.ws for l in leaves(w)):
-        case.skip = "abstraction"
 
 
 # --------------------------------------------------------------------------
@@ -1442,8 +1471,14 @@ def case_from_payload(d) -> Case:
 def run_cases(rep: C.Report, cases, tag: str):
     stats = Counter()
     by_lang = {}
+    ncrash = 0
     for c in cases:
         run_impl(c)
+        if c.error and c.error != "NonCanonicalTypeError":
+            ncrash += 1
+            if ncrash <= 3:
+                rep.violation(f"raised_{c.name}", dict(c.payload(), kind="oracle",
+                    what=f"building the graph of a well-typed expression raised {c.error}"))
         if c.skip:
             stats["skipped_" + c.skip] += 1
             continue
@@ -1497,12 +1532,14 @@ def run_cases(rep: C.Report, cases, tag: str):
             dist["source_via_variable"] += any(l.get("via_var") for w in c.ws for l in leaves(w))
             for s in SWITCHES:
                 dist["on_" + s] += c.sw[s]
-            dist["outcome_" + (c.error or "ok")] += 1
+            dist["outcome_" + (c.error or "ok").split(":")[0]] += 1
             if ncomp and any(repr(x["t"]) in canon_set for x in concepts) and len(concepts) >= 3:
                 nontrivial.add((c.name, rtext(c.L, c.spec) if c.kind == "expr" else json.dumps(c.spec["tools"])))
             payload = c.payload()
             payload["canon"] = [c.L.tstr(t) for t in c.canon]
             payload["implementation_triples"] = sorted(map(str, c.obs))[:200]
+            if c.error and c.error != "NonCanonicalTypeError":
+                continue         # reported above
             # oracle
             if c.error is None:
                 for name, what, sig in oracle(c, member_op_name):
